@@ -15,12 +15,13 @@ PROPS = {
     },
     "C03": {
         "lean": "CedarProps.C03",
-        "engines": ["hsadv"],
-        "oracle_engine": {"hsadv": "hs"},
+        "engines": ["hsadv", "token"],
+        "accept_props": {"token": ["C11"]},
+        "oracle_engine": {"hsadv": "hs", "token": "token"},
         "trusted": ["authentication sub-protocols are oracles (method m ran with this peer and succeeded / failed); ECDH/HKDF symbolic (symmetric free symbol)"],
         "technique": "Lean 4 theorems over client/server handshake machines with a universally quantified peer script + correspondence against scripted adversarial peers speaking raw CEDAR to the real ClientHandshake/ServerHandshake",
         "level_text": "client_required_auth, client_required_enc, client_reported_enc_is_real, client_reported_auth_is_real, client_only_offered_methods_run, server_required_auth, server_required_enc, server_reported_is_real, decided_enc_is_keyed: for every local policy and EVERY peer (all field values, all bitmask replies, any key material, any post-auth ad) — kernel-checked over the model. Tied to the code by the hsadv engine: both roles x 4x4 policies (+integrity) x method shapes x the property's deviation catalogue + random peers; the scripted peer records which exchanges really completed and the harness reads the stream's real encryption state.",
-        "level_note": "Resumed handshakes are covered under C06. Sub-protocol soundness (did a 'successful' method deserve to succeed) is C11/C18. Only CLAIMTOBE/PASSWORD/NONE/TOKEN(no token)/unknown names are exercised on the wire; the theorems cover all methods via the oracle abstraction.",
+        "level_note": "Resumed handshakes are covered under C06. Sub-protocol soundness (did a 'successful' method deserve to succeed) is C11/C18; because C03's theorems assume it, the token engine (C11) also runs under this check and its violations count here. Only CLAIMTOBE/PASSWORD/NONE/TOKEN(no token)/unknown names are exercised on the wire; the theorems cover all methods via the oracle abstraction.",
         "assumptions": ["an authentication sub-protocol reports success only if it completed (C11, C18)"],
     },
     "C04": {
@@ -35,12 +36,13 @@ PROPS = {
     },
     "C05": {
         "lean": "CedarProps.C05",
-        "engines": ["dispatch"],
-        "oracle_engine": {"dispatch": "dispatch"},
+        "engines": ["dispatch", "hsadv"],
+        "accept_props": {"hsadv": ["C03"]},
+        "oracle_engine": {"dispatch": "dispatch", "hsadv": "hs"},
         "trusted": ["handler bodies are opaque (they only decide keep-alive)", "session flags = handshake outcome; their truth is C03/C06"],
         "technique": "Lean 4 theorems (induction over the follow-on command list with the per-iteration re-check as invariant) composed with the handshake model + correspondence on a real server.Server with scripted command sequences, four kinds of client, reconnect-and-resume",
         "level_text": "dispatch_sound (every invoked authenticated handler: registered, not raw, session meets the command's CURRENT level, identity currently authorized — all follow-on sequences, all keep-alive behaviours), levelOK_meaning, raw_path_only_raw, auth_path_never_raw, refuse_closes, raw_refuse_closes, valid_commands_sound: kernel-checked. Tied to the code by the dispatch engine: real server with per-command policies/authorization levels and 3 authorizer tables, every command sequence of length <=3 (sampled above 2) over authenticated/raw/unknown commands with random keep-alive patterns, 4 client kinds, reconnect-and-resume with another command; invoked handlers (with the stream's real encryption state) compared with the model composed with honestRun.",
-        "level_note": "Handler bodies are opaque; the per-command policy function and authorizer are parameters (they may change between connections).",
+        "level_note": "Handler bodies are opaque; the per-command policy function and authorizer are parameters (they may change between connections). The theorems assume the session flags are true (C03); the hsadv engine (C03) therefore also runs under this check and its violations count here.",
         "assumptions": ["reported session flags equal the real state (C03, C06)"],
     },
     "C06": {
@@ -59,7 +61,7 @@ PROPS = {
         "oracle_engine": {"clientcache": "sc"},
         "trusted": ["time is a parameter of the model"],
         "technique": "Lean 4 theorems (command-map key injectivity for all strings (prefix-code argument over the comma escaping), MapCommand touches exactly one route, resume only via the routed triple, drop on failure, invalidate/expire remove routes) + correspondence of real client handshakes over (tag, server, command) histories against model and an independent reference map",
-        "level_text": "key_injective (for ALL tags, addresses and commands: commas inside a part are escaped; comma_triples_distinct is the pair that collided before the fix), mapCommand_route, resume_only_routed, drop_on_failure, next_is_full, invalidate_removes_routes, expire_removes_routes, WF preservation: kernel-checked. Tied to the code by the clientcache engine: histories of real ClientHandshake calls over 4 tags x 5 addresses x 3 commands with server restarts, broken connections, expiry, invalidation; all 60 routes compared after every step with the model and with a reference map kept by the spec rules.",
+        "level_text": "key_injective (for ALL tags, addresses and commands: commas inside a part are escaped; comma_triples_distinct is the pair that collided before the fix), mapCommand_route, resume_only_routed, explicit_id_plants_no_route (a handshake that names a cached session by id never adds a command-map binding), drop_on_failure, next_is_full, invalidate_removes_routes, expire_removes_routes, WF preservation: kernel-checked. Tied to the code by the clientcache engine: histories of real ClientHandshake calls over 4 tags x 5 addresses x 3 commands with server restarts, broken connections, expiry, invalidation; all 60 routes compared after every step with the model and with a reference map kept by the spec rules.",
         "level_note": "No assumption on the characters of tags, addresses or commands remains (the comma collision found by the theorem was confirmed on the real cache and repaired).",
         "assumptions": [],
     },
@@ -215,7 +217,7 @@ PROPS["C20"] = {'assumptions': ['crypto/rand draws do not repeat and cannot be g
  'level_text': 'returns_only_matching, rogues_closed_never_returned (every arrival order and interleaving: the returned connection presented exactly the '
                'generated id under CCB_REVERSE_CONNECT, everything else is closed and not returned), broker_failure_ends / broker_failure_genuine / '
                'attempt_result_final, proxied_returns_iff / proxied_failure_ends, dial_returns_only_matching (any number of brokers, any subset working, any '
-               'completion order), at_most_one, id_fresh, other_requests_id_never_returned: kernel-checked over the event model. Tied to the code by the ccb '
+               'completion order), at_most_one, id_fresh, connect_id_source (GenerateConnectID draws from crypto/rand and reads no package-level state: regenerated table), other_requests_id_never_returned: kernel-checked over the event model. Tied to the code by the ccb '
                'engine: every arrival order of <=3 (thorough <=4) connections over 8 greeting classes plus random longer sequences with byte-level varieties '
                'on the real accept loop; broker reply x replayed hello on the real proxied request; real ccb.Dial with rogue connections around the legitimate '
                'one, success/failure/no reply racing the reverse connection, proxied and nested contacts, 1-3 brokers (working, failing, refusing, dead), '
@@ -353,7 +355,7 @@ PROPS["C17"] = {'assumptions': ["sync.Mutex / sync.RWMutex mutual exclusion, syn
                'config_not_written (every library NewAuthenticator call site hands over a copy; only declared writes through configurations), '
                'handshakes_isolated (all interleavings, one copy per connection) with sharing_disturbs as the recorded reason, established_after_handshake, '
                'directions_independent (every interleaving of send and receive operations on an established stream shows each goroutine exactly what it sees '
-               'running alone) with send_/recv_touches_*_side_only, footprint_covers_code + footprints_disjoint (regenerated field footprints of all exported '
+               'running alone) with send_/recv_touches_*_side_only, footprint_covers_code, broker_writers_serialised (every write to a CCB broker stream is in register or inside writeToBroker under writeMu: regenerated site table) + footprints_disjoint (regenerated field footprints of all exported '
                'Stream methods within the declaration; the declaration keeps the directions apart): kernel-checked. Tied to the code by the fact tables '
                '(tools/gen/facts_lock.go) and by the race engine: concurrent cache histories whose linearization the Lean cache replays, configuration-cell '
                'schedules and the resume-vs-Invalidate schedule on real Authenticators, two-goroutine stream interleavings compared per direction with the '
